@@ -281,7 +281,7 @@ def part_wake_sched(ctx):
 def part_fault_enum(ctx):
     p = Part("fault-enumeration")
     d = os.path.join(ctx["work"], "faultenum")
-    args = ["fault-enum", "-out", d] + (["-max-k", "6"] if QUICK(ctx) else [])
+    args = ["fault-enum", "-out", d]     # every statement position of every operation, in both tiers (13 s)
     rc, out = harness(args, timeout=3000)
     if rc != 0:
         p.violation("harness-failed", "fault enumeration failed: " + out[-1500:], dict(log=out[-3000:]), found_input=False)
@@ -783,7 +783,7 @@ CHECKS = {
         props=["C09"],
         parts=[part_fault_enum],
         rule="for each of 26 mutating operations in a prepared non-trivial state, the k-th driver call (BEGIN/exec/query/COMMIT) is failed (error or context-cancellation error), "
-             "quick: <= 6 positions per operation incl. first, last, commit; thorough: every k; checks: error reported, five-table dump identical, no publish waiter woken, retry succeeds and matches the model; "
+             "every k in both tiers (215 positions); checks: error reported, five-table dump identical, no publish waiter woken, retry succeeds and matches the model; "
              "non-trivial = distinct (operation, position) pairs at which the fault fired",
         trusted=["the database's own atomicity under failure (ROLLBACK restores the snapshot) is assumed; the driver wrapper injects failures before the statement runs"],
         assumptions=["partial: faults are injected at statement boundaries of the SQL driver, not inside SQLite; PostgreSQL is not exercised",
